@@ -28,6 +28,13 @@
    * C02_regression_stale_size / C02_regression_smaller_buffer: the histories that used to refute
      the full statement (former C02_refuted_stale_size / C02_refuted_smaller_buffer) now end
      without error, with one discard, in bounds.
+   * C02_no_error (end of this file; proofs Tracer/NoError.v): the statement IN FULL on the model -
+     for every well-formed data stream type, platform behaviour and history that starts by opening
+     the first packet, the error flag stays false (no store outside the current packet buffer, no
+     assertion), provided every buffer the platform installs can hold the packet header + context
+     (bufs_ok, decidable by one computation: C02_buffers_decidable) and the arguments are well typed
+     and sized (call_okf; necessary: C02_no_error_needs_sized_arguments); C02_history_in_bounds_full:
+     the position is inside the packet at every call boundary under the same premises.
    No C90 undefined operation at the bit-field level: C08 (result is Some).
    Validated, not proved (named): the compiled object's actual memory accesses (AddressSanitizer +
    UBSan builds with exact-size heap buffers on every correspondence run), reads of caller data,
@@ -179,3 +186,72 @@ Theorem C02_tracing_call_stays_in_bounds :
     w_err (trace_fn d e args w) = false -> offb (trace_fn d e args w) -> inb (trace_fn d e args w).
 Proof. exact trace_inb. Qed.
 Print Assumptions C02_tracing_call_stays_in_bounds.
+
+(* ------------------------------------------------------------------ C02 in full on the model *)
+(* No store outside the current packet buffer (and no assertion of the generated code) for EVERY
+   history, platform behaviour (oracle: back end full, tracing toggled inside callbacks, buffers
+   swapped, eager re-opening) and well-formed data stream type, provided every buffer can hold the
+   packet header + context and the arguments are well typed and sized.  The model's error flag
+   (w_err: a store outside [0, packet_size), or `fail`) is DERIVED false; proofs: Tracer/NoError.v.
+     NoError.opens_ok_at d user n : in any world with a buffer of n bits, no error so far and the
+        opening arguments `user`, the opening function proper (header + context serialization) flags
+        no error and leaves off_content <= n.  Decidable by one computation
+        (C02_buffers_decidable: success and end position of a serialization depend only on positions
+        and shapes, Layout/SerIndep.v).
+     NoError.bufs_ok d user buf oracle : opens_ok_at (8 * buf), and opens_ok_at (8 * b) for every
+        buffer size b the platform installs (a_newbuf of an oracle answer).
+     NoError.call_okf d k : History.call_ok (well-typed arguments) and the arguments are SIZED
+        (SizeTotal.val_fit: static arrays have their declared number of elements, no uuid member);
+        necessary: C02_no_error_needs_sized_arguments. *)
+From BT.Layout Require Import SizeTotal.
+From BT.Tracer Require Import NoError NoErrorExample Examples HistoryExample.
+
+Theorem C02_no_error :
+  forall d user cs_size, wf_d d user cs_size ->
+  forall buf oracle h,
+    fits cs_size (8 * buf) -> or_ok cs_size oracle -> bufs_ok d user buf oracle ->
+    Forall (call_okf d) h ->
+    let w0 := mk_w (init_ctx buf) oracle 0%Z [] false user in
+    c_open (w_c (step d w0 COpen)) = true ->
+    w_err (run d buf user oracle (COpen :: h)) = false.
+Proof. exact no_error_run. Qed.
+Print Assumptions C02_no_error.
+
+(* ... and the write position is inside the packet at every call boundary *)
+Theorem C02_history_in_bounds_full :
+  forall d user cs_size, wf_d d user cs_size ->
+  forall buf oracle h,
+    fits cs_size (8 * buf) -> or_ok cs_size oracle -> bufs_ok d user buf oracle ->
+    Forall (call_okf d) h ->
+    let w0 := mk_w (init_ctx buf) oracle 0%Z [] false user in
+    let w1 := step d w0 COpen in
+    c_open (w_c w1) = true -> inb_run d w1 h.
+Proof. exact history_in_bounds_full. Qed.
+Print Assumptions C02_history_in_bounds_full.
+
+Theorem C02_buffers_decidable :
+  forall d user n, opens_ok_check d user n = true -> opens_ok_at d user n.
+Proof. exact opens_ok_check_ok. Qed.
+Print Assumptions C02_buffers_decidable.
+
+(* with `call_ok` only (well typed, not sized) the statement is false for the model: a static array
+   argument with the wrong number of elements has no size *)
+Theorem C02_no_error_needs_sized_arguments :
+  exists d user cs_size buf oracle h,
+    wf_d d user cs_size /\ fits cs_size (8 * buf) /\ or_ok cs_size oracle /\ bufs_ok d user buf oracle /\
+    Forall (call_ok d) h /\
+    c_open (w_c (step d (mk_w (init_ctx buf) oracle 0%Z [] false user) COpen)) = true /\
+    w_err (run d buf user oracle (COpen :: h)) = true.
+Proof. exact no_error_needs_sized_arguments. Qed.
+Print Assumptions C02_no_error_needs_sized_arguments.
+
+(* non-vacuity: every premise holds for the example type and history, and the absence of error of
+   that run is obtained through the theorem *)
+Example C02_no_error_example :
+  wf_d ex_d [] 16 /\ fits 16 (8 * 16) /\ or_ok 16 ex_or /\ bufs_ok ex_d [] 16 ex_or /\
+  Forall (call_okf ex_d) ex_tail /\
+  w_err (run ex_d 16 [] ex_or (COpen :: ex_tail)) = false.
+Proof.
+  split; [exact ex_wf|]. split; [unfold fits; cbn; apply Z.ltb_lt; reflexivity|].
+  split; [repeat constructor|]. split; [exact ex_bufs_ok|]. split; [exact ex_calls_f|exact no_error_example].
+Qed.
